@@ -5,7 +5,7 @@ import re
 from sa.absval import AbsEval, Const, Kind
 from sa.expr import txt, match, atom, unawait, linear, int_ordering, ordering, dotted
 from sa.model import AnalysisError, exc_is_subclass
-from .common import assume_from, describe, placeholder_bind
+from .common import assume_from, describe, placeholder_bind, or_default
 from .seq import PV, guards_matching, own_nodes, eq_guard
 from .sockrules import FLAVOURS, pconsts, packet_ctor, evaluator
 
@@ -312,8 +312,9 @@ def handle_connect_rules(A, fl, rule):
                     txt(e.target) == 'self.sockets[%s]' % SID]
             after = [x for i, x in v.effects(0) if i > trig[0][0] and
                      any(k in x for k in ('.poll()', 'handle_get_request', '_ok('))]
-            A.check(p.outcome == 'return' and
-                    txt(p.value) == 'self._unauthorized(%s or None)' % ret_t and dels and
+            ua = match('self._unauthorized(_a)', unawait(p.value)) if p.value is not None else None
+            A.check(p.outcome == 'return' and ua is not None and
+                    or_default(p, txt(ua['a']), ret_t, 'None') and dels and
                     not after and not [i for i, val in v.writes(S + '.connected')],
                     rule + '.reject', '%s: a rejected connection is removed from the table and '
                     'answered 401 carrying the handler value; nothing else happens' % fl['name'],
@@ -1447,6 +1448,12 @@ def api_rules(A, fl, rule):
         okt = txt(p.value) == "'websocket' if %s.upgraded else 'polling'" % S or \
             (txt(p.value) == "'websocket'" and (S + '.upgraded', True) in gat) or \
             (txt(p.value) == "'polling'" and (S + '.upgraded', False) in gat)
+        if not okt and p.value is not None:
+            # any other spelling is judged by folding it under both values of the flag
+            def _fold(b_, S=S, val=p.value):
+                r_ = AbsEval(lambda e_: Const(b_) if txt(e_) == S + '.upgraded' else None).eval(val)
+                return r_.v if isinstance(r_, Const) else None
+            okt = _fold(True) == 'websocket' and _fold(False) == 'polling'
         A.check(okt, rule + '.transport', '%s transport(sid) reports websocket iff the session '
                 'is upgraded' % name, A.site(fi), key='%s-transport' % name, detail=txt(p.value))
     A.check('KeyError' in A.resolver.raises_of(fi, srv), rule + '.dead-id-raises',
